@@ -73,6 +73,8 @@ end
 
 instance : Inhabited E := ⟨.const .none⟩
 
+deriving instance DecidableEq for E, Chain
+
 abbrev Env := Nat → V
 
 /-- result of an evaluation: the value (`none` = an exception escaped) and the names read, in order;
@@ -254,6 +256,7 @@ def envOf (prov : Nat → List Nat) (ρ : Env) : Env := fun n => andAll ρ (prov
 structure Guard where
   e : E
   expected : Bool
+deriving DecidableEq
 
 /-- result of deciding one transition: `some true` enabled, `some false` not enabled,
 `none` an exception escaped from a guard -/
@@ -358,11 +361,18 @@ def lateGuards (prov : Nat → List Nat) (entries : List (Src × Bool × Bool)) 
     | .parsed e, true => if (unknowns prov e).isEmpty then some ⟨subst prov e, en.2.1⟩ else none
     | _, _ => none
 
+/-- `CallbacksExecutor.add`: an entry whose key was already seen — the resolved expression (the key of an expression is
+built from the keys `name@id(provider)` of its names along its structure) together with the expected value — is
+ignored; a new one is appended (same priority, stable `insort`) -/
+def addNew : List Guard → List Guard → List Guard
+  | acc, [] => acc
+  | acc, g :: gs => if acc.contains g then addNew acc gs else addNew (acc ++ [g]) gs
+
 /-- construction over `prov`, then one attachment pass per element of `lates` -/
 def constructPasses (prov : Nat → List Nat) (lates : List (Nat → List Nat)) (entries : List (Src × Bool × Bool)) :
     Verdict :=
   match construct prov (entries.map fun en => (en.1, en.2.1)) with
-  | .ok gs => .ok (gs ++ lates.flatMap fun p => lateGuards p entries)
+  | .ok gs => .ok (lates.foldl (fun acc p => addNew acc (lateGuards p entries)) gs)
   | .invalidDefinition => .invalidDefinition
 
 /-- the declared entries as Python expressions (for the specification side) -/
